@@ -91,7 +91,15 @@ class Case:
         shape = tuple(sp["shape"])
         dt = np.dtype(sp.get("dtype", "float32"))
         req = sp.get("req", True)
-        t = T()(env.const(np.zeros(shape), dt), requires_grad=req)
+        base = None
+        if sp.get("view"):
+            # the given tensor is a row of a larger one (parameters of several units kept in one block, one unit re-initialised):
+            # "in place" means the values are written into the storage the tensor has, so the block sees them
+            base = T()(env.const(np.zeros((2,) + shape), dt), requires_grad=False)
+            t = base[1]
+            shared = bool(np.shares_memory(np.asarray(base.data), np.asarray(t.data)))
+        else:
+            t = T()(env.const(np.zeros(shape), dt), requires_grad=req)
         before = (tuple(t.shape), str(t.dtype), t.requires_grad)
         kind = None
         # arguments handed over as NumPy float64 scalars (np.sqrt(2), np.float64(0.02)) instead of Python floats: NumPy promotes
@@ -163,6 +171,9 @@ class Case:
             raise ValueError(fn)
         out.notes["obs:data"] = t.data
         out.fact("returns the very tensor it was given", r is t)
+        if base is not None and shared:
+            out.pair("a tensor sharing the given tensor's storage sees the new values (filled in place)", base.data[1], t.data)
+            out.pair("the rest of the shared storage is untouched", base.data[0], _full(shape, 0.0, env))
         out.fact("shape, dtype and requires_grad unchanged", (tuple(t.shape), str(t.dtype), t.requires_grad) == before,
                  "before %s after %s" % (before, (tuple(t.shape), str(t.dtype), t.requires_grad)))
         if kind == "u":
@@ -241,6 +252,10 @@ def enumerate_specs(tier):
         specs.append({"fn": fn, "shape": [2, 3], "defaults": True})
         specs.append({"fn": fn, "shape": [2, 1, 2], "defaults": True})
     specs.append({"fn": "calculate_gain"})
+    for fn in ("uniform_", "normal_", "constant_", "ones_", "zeros_"):
+        specs.append({"fn": fn, "shape": [3], "dtype": "float32", "req": False, "view": True})
+    for fn in ("xavier_uniform_", "kaiming_normal_"):
+        specs.append({"fn": fn, "shape": [2, 2], "defaults": True, "view": True})
     for dt in ("float32", "float64"):
         for c in (0.1, 1.0 / 3):
             specs.append({"fn": "constant_", "shape": [2], "dtype": dt, "req": dt == "float32", "const": c})
